@@ -213,3 +213,98 @@ def fold_function(fn, ref_names):
         if not changed:
             break
     return done
+
+
+# ------------------------------------------------------------ copy coalescing
+def _occ(node, name):
+    return any(isinstance(n, ast.Name) and n.id == name for n in ast.walk(node)) \
+        or any(isinstance(n, ast.ExceptHandler) and n.name == name
+               for n in ast.walk(node))
+
+
+def coalesce_copies(fn):
+    """`Y = ...; <statements using Y only>; X = Y` with Y used nowhere else in
+    the function and X not touched in between: Y is X (the statements in between
+    work on X directly and the copy disappears).  Typical after a helper was
+    expanded: the helper's result variable and the caller's variable are one.
+    Not applied when an enclosing try's handlers / finally mention X (they would
+    see the value earlier than before).  -> number of copies removed"""
+    done = 0
+    total = {}
+    for n in ast.walk(fn):
+        if isinstance(n, ast.Name):
+            total[n.id] = total.get(n.id, 0) + 1
+    params = {a.arg for a in ast.walk(fn.args) if isinstance(a, ast.arg)}
+    nested = set()
+    for n in ast.walk(fn):
+        if n is not fn and isinstance(n, (ast.FunctionDef, ast.Lambda,
+                                          ast.AsyncFunctionDef, ast.ClassDef)):
+            nested |= {x.id for x in ast.walk(n) if isinstance(x, ast.Name)}
+
+    def walk_blocks(stmts, guarded):
+        nonlocal done
+        k = 0
+        while k < len(stmts):
+            s = stmts[k]
+            if isinstance(s, ast.Assign) and len(s.targets) == 1 and \
+                    isinstance(s.targets[0], ast.Name) and \
+                    isinstance(s.value, ast.Name) and \
+                    s.targets[0].id != s.value.id:
+                x, y = s.targets[0].id, s.value.id
+                if y not in params and y not in nested and x not in nested \
+                        and x not in guarded:
+                    # first definition of y at this block level
+                    j = None
+                    for i in range(k):
+                        si = stmts[i]
+                        if isinstance(si, ast.Assign) and any(
+                                isinstance(t, ast.Name) and t.id == y
+                                for t in si.targets) and \
+                                not _occ(si.value, y):
+                            j = i
+                            break
+                    if j is not None:
+                        inside = sum(
+                            1 for i in range(j, k + 1)
+                            for n in ast.walk(stmts[i])
+                            if isinstance(n, ast.Name) and n.id == y)
+                        clean = not any(_occ(stmts[i], x) for i in range(j, k))
+                        if inside == total.get(y, 0) and clean:
+                            class R(ast.NodeTransformer):
+                                def visit_Name(self, n):
+                                    if n.id == y:
+                                        n.id = x
+                                    return n
+                            for i in range(j, k):
+                                R().visit(stmts[i])
+                            del stmts[k]
+                            total[x] = total.get(x, 0) + inside - 2
+                            total[y] = 0
+                            done += 1
+                            continue
+            # recurse
+            for field in ("body", "orelse", "finalbody"):
+                blk = getattr(s, field, None)
+                if isinstance(blk, list) and blk and \
+                        isinstance(blk[0], ast.stmt) and not isinstance(
+                            s, (ast.FunctionDef, ast.ClassDef,
+                                ast.AsyncFunctionDef)):
+                    g = set(guarded)
+                    if isinstance(s, ast.Try) and field == "body":
+                        for h in s.handlers:
+                            g |= {n.id for n in ast.walk(h)
+                                  if isinstance(n, ast.Name)}
+                        for st in s.finalbody + s.orelse:
+                            g |= {n.id for n in ast.walk(st)
+                                  if isinstance(n, ast.Name)}
+                    walk_blocks(blk, g)
+            if isinstance(s, ast.Try):
+                for h in s.handlers:
+                    g = set(guarded)
+                    for st in s.finalbody:
+                        g |= {n.id for n in ast.walk(st)
+                              if isinstance(n, ast.Name)}
+                    walk_blocks(h.body, g)
+            k += 1
+    walk_blocks(fn.body, set())
+    return done
